@@ -76,6 +76,13 @@ def run(tier, rng, C):
     v += bad
     stats["large_document_pairs"] = nbig
     stats["evaluations"] = stats.get("evaluations", 0) + nbig
+    # the same library calls through the crate's own HTTP clients (reqwest, reqwest blocking, curl, ureq) against a scripted
+    # loopback server: the outcome must be the one an in-memory client given the same reply produces (gen/same.py)
+    from gen import same as SAME
+    bad_same, n_same = SAME.run("C19", SAME.cases(["devauth"], rng, statuses=(200, 400), success_docs=16) + SAME.poll_cases(rng), C)
+    v += bad_same
+    stats["through_bundled_adapters"] = n_same
+    stats["evaluations"] = stats.get("evaluations", 0) + n_same
     stats["rule"] = ("device-authorization value-model documents (hostile Unicode codes, verification_uri or legacy verification_url, valid and invalid URLs, both names at once, interval absent/null/0/1/5/2^63/u64::MAX/"
                      "negative/fractional/string/bool, expires_in over and beyond u64, optional members absent/null/present, extension members, unknown members, any order/whitespace/escaping), "
                      "single-member deletions and type corruptions, malformed text; directly and through a 200 reply; plus the poll loop started from responses with each interval class "
